@@ -61,7 +61,7 @@ def merge(a, b):
     return a
 
 
-def build(tree):
+def build(tree, links=None):
     if os.path.isdir(SANDBOX):
         for n in os.listdir(SANDBOX):
             p = os.path.join(SANDBOX, n)
@@ -79,12 +79,21 @@ def build(tree):
                 os.mkdir(p)
                 rec(p, sub)
     rec(SANDBOX, tree)
+    # symbolic links to component directories live in <sandbox>/links/, outside every directory that is searched
+    # (glob follows links; a link inside a searched directory would make one file reachable under two paths)
+    if links:
+        os.mkdir(os.path.join(SANDBOX, "links"))
+        for name, target in links.items():
+            os.symlink(os.path.join(SANDBOX, target), os.path.join(SANDBOX, "links", name))
 
 
 def read_tree(d):
-    """What is really on disk (so the model sees exactly the implementation's input)."""
+    """What is really on disk (so the model sees exactly the implementation's input).  Symbolic links are not part of
+    the model: they are skipped here and a configured link is handed to the model as its target (entry_term)."""
     out = {}
     for e in sorted(os.scandir(d), key=lambda e: e.name):
+        if e.is_symlink():
+            continue
         out[e.name] = read_tree(e.path) if e.is_dir() else None
     return out
 
@@ -118,18 +127,38 @@ def cleanup():
 # ---------------------------------------------------------------------------------------------
 # configuration entries.  JSON form: {"form": ..., "p": "proj/components"}
 # ---------------------------------------------------------------------------------------------
+def spelled_parts(e):
+    """Components of the configured directory AS WRITTEN in the settings (below the sandbox): e["p"] is the canonical
+    path, e["spell"] a non-canonical way to write it.  "." and ".." segments are part of the spelling."""
+    parts = e["p"].split("/") if e["p"] else []
+    kind, _, arg = (e.get("spell") or "").partition(":")
+    if kind == "sib":                                 # proj/config/../components  (Path(__file__).parent / ".." / "components")
+        parts = parts[:-1] + [arg, ".."] + parts[-1:]
+    elif kind == "child":                             # proj/components/sub/..
+        parts = parts + [arg, ".."]
+    elif kind == "updown" and parts:                  # proj/../proj/components   (os.path.join(BASE_DIR, "..", "proj", ...))
+        parts = parts[:1] + ["..", parts[0]] + parts[1:]
+    elif kind == "trail":                             # proj/components/.
+        parts = parts + ["."]
+    if e["form"] == "dotseg" and parts:               # /R/proj/./components
+        parts = parts[:-1] + [".", parts[-1]]
+    return parts
+
+
 def entry_value(e):
-    ab = os.path.join(SANDBOX, e.get("p", "")) if e.get("p") is not None else None
+    ab = None
+    if e.get("p") is not None:
+        if (e.get("spell") or "").startswith("link:"):      # a symbolic link to the directory
+            ab = os.path.join(SANDBOX, "links", e["spell"][5:])
+        else:
+            ab = os.path.join(SANDBOX, *spelled_parts(e))
     f = e["form"]
-    if f == "str":
+    if f in ("str", "dotseg"):
         return ab
     if f == "path":
         return Path(ab)
     if f == "slash":
         return ab + "/"
-    if f == "dotseg":                       # /R/proj/./components  (resolve() normalises)
-        head, tail = os.path.split(ab)
-        return os.path.join(head, ".", tail)
     if f == "tuple":
         return ("prefix", ab)
     if f == "tuplepath":
@@ -156,8 +185,10 @@ def entry_term(e):
         v = "PNotPath"
     elif f in ("rel", "reltuple"):
         v = "PRel"
+    elif (e.get("spell") or "").startswith("link:"):
+        v = "(PAbs %s)" % cpath(e["p"].split("/") if e["p"] else [])       # symlinks are outside the model: the target
     else:
-        v = "(PAbs %s)" % cpath(e["p"].split("/") if e["p"] else [])
+        v = "(PAbs %s)" % cpath(spelled_parts(e))                           # the spelling; the model resolves it
     return "(%s %s)" % ("RTuple" if tup else "RPlain", v)
 
 
@@ -252,7 +283,7 @@ def observe(case, suffixes):
     """Build the sandbox, run the implementation; returns dict with everything observed."""
     from django_components.util.loader import get_component_dirs, get_component_files
     tree = merge(json.loads(json.dumps(case["tree"])), _skeleton())
-    build(tree)
+    build(tree, case.get("links"))
     importlib.invalidate_caches()
     sys.path_importer_cache.clear()
     tree = read_tree(SANDBOX)
@@ -362,6 +393,9 @@ def oracle(chk, case, obs):
                 failed.add(T_EXC)
                 chk.fail(T_EXC, "get_component_files(%r) raised %s on a valid configuration" % (suf, r[1]), replay_obj(case, suf))
             continue
+        # judged against the canonical tree: how a directory was spelled in the settings (a/../b, ./b, a symlink) must
+        # not matter, and neither does the spelling of a returned path
+        r = (r[0], [(dot, os.path.realpath(fp)) for dot, fp in r[1]])
         got = [fp for _, fp in r[1]]
         expected = []
         for d, _, _ in src:
@@ -396,7 +430,7 @@ def oracle(chk, case, obs):
                 if s is None:
                     continue
                 cands = {find_origin(root, dot) for d, root, _ in src if fp.startswith(d + os.sep)}
-                if fp in cands:
+                if fp in {c and os.path.realpath(c) for c in cands}:
                     continue
                 relp = os.path.relpath(fp, s[1]).split(os.sep)
                 if has_interior_dot(relp):
@@ -445,7 +479,7 @@ def _run_autodiscover(case, map_module=None):
             autodiscover(map_module)
         except Exception as e:  # noqa
             err = "%s: %s" % (type(e).__name__, e)
-    loaded = set(builtins._c20_loaded)
+    loaded = {os.path.realpath(f) for f in builtins._c20_loaded}
     for k in set(sys.modules) - before:
         del sys.modules[k]
     return err, loaded, already
@@ -486,7 +520,7 @@ def autodiscover_oracle(chk, case):
     # second run: neutralise (map_module) the dot paths of files that no dotted name can import - the dotted-name class
     # (decided on the file path) and files shadowed by a sibling (the layout, not the library) - and demand the rest
     with configured(case):
-        ents = [(e.dot_path, str(e.filepath)) for e in get_component_files(".py")]
+        ents = [(e.dot_path, os.path.realpath(str(e.filepath))) for e in get_component_files(".py")]
 
     def unimportable(fp):
         return in_class(fp) or any(shadowed(fp, root) for d, root, _ in src if fp.startswith(d + os.sep))
@@ -525,6 +559,8 @@ CAND = ["proj/components", "proj/ui/comps", "proj", "proj/papp/components", "pro
         "site/c20pkg/inner/ui/comps", "proj/papp/comps"]
 # configured directories whose path contains glob metacharacters (must be taken literally: fix dfdce86); the sibling
 # names below make a live pattern observable (c[1] would match c1, x*y would match xzy, q? would match qa)
+# non-canonical spellings of a configured directory (see spelled_parts); "config"/"zz" need not exist
+SPELLINGS = ["sib:config", "sib:zz", "sib:ui", "sib:components", "child:zz", "child:sub", "updown", "trail", "link"]
 MAGIC = ["proj/c[1]", "proj/x*y/comps", "proj/q?"]
 MAGIC_SIBLINGS = {"proj/c[1]": "proj/c1", "proj/x*y/comps": "proj/xzy/comps", "proj/q?": "proj/qa"}
 
@@ -571,10 +607,19 @@ def gen_case(rng, dots=0.0, odd=0.25):
     mode = rng.random()
     forms_ok = ["str", "str", "path", "path", "slash", "dotseg", "tuple", "tuplepath", "list", "tuple3"]
 
+    links = {}
+
     def ents(k):
         out = []
         for cand in rng.sample(CAND[:7] + CAND[:2], k):
-            out.append({"form": rng.choice(forms_ok), "p": cand})
+            e = {"form": rng.choice(forms_ok), "p": cand}
+            if rng.random() < 0.3:          # a non-canonical spelling of the same directory
+                sp = rng.choice(SPELLINGS)
+                if sp == "link":
+                    sp = "link:l%d" % len(links)
+                    links[sp[5:]] = cand
+                e["spell"] = sp
+            out.append(e)
         if magic:
             out.insert(rng.randrange(len(out) + 1), {"form": rng.choice(forms_ok), "p": rng.choice(MAGIC)})
         if rng.random() < 0.15:
@@ -596,7 +641,10 @@ def gen_case(rng, dots=0.0, odd=0.25):
     app_dirs = rng.choice([["components"], ["components"], [], ["comps", "components"], ["ui/comps"], ["components", "missing"], [""]])
     if base != "proj":
         put(tree, base, {})
-    return {"tree": tree, "base": base, "dirs": dirs, "static": static, "app_dirs": app_dirs}
+    case = {"tree": tree, "base": base, "dirs": dirs, "static": static, "app_dirs": app_dirs}
+    if links:
+        case["links"] = links
+    return case
 
 
 def small_trees():
@@ -613,6 +661,8 @@ def small_trees():
 
 
 CFG_SIMPLE = {"base": "proj", "dirs": [{"form": "path", "p": "proj/components"}], "static": [], "app_dirs": ["components"]}
+CFG_SPELLED = {"base": "proj", "dirs": None, "static": [{"form": "tuple", "p": "proj/components", "spell": "sib:config"}],
+               "app_dirs": ["components"]}
 
 
 # ---------------------------------------------------------------------------------------------
@@ -729,8 +779,8 @@ def run(tier, seed):
         for fname, d in load_corpus():
             run_case(chk, d["case"], [d.get("suffix", ".py")], "corpus", terms, cases, do_auto=d.get("kind") == "autodiscover")
         # ---- exhaustive small layer ----
-        for t in small_trees():
-            case = dict(CFG_SIMPLE, tree={"proj": {"components": t}, "site": {"c20app": {"components": dict(t)}}})
+        for k, t in enumerate(small_trees()):
+            case = dict(CFG_SPELLED if k % 3 == 2 else CFG_SIMPLE, tree={"proj": {"components": t}, "site": {"c20app": {"components": dict(t)}}})
             run_case(chk, case, [".py", None], "exhaustive-small", terms, cases)
         # ---- seeded random ----
         n = 30000 if thorough else 2000
@@ -750,7 +800,8 @@ def run(tier, seed):
     chk.assumptions = [
         "glob.iglob / os.scandir / pathlib (CPython 3.12) are modelled: `**` and `*` skip dot-names, match files and directories; "
         "glob.escape makes the configured directory literal; Path.is_file() = look the path up again",
-        "no symlinks; names are non-empty, without '/' and NUL; the suffix has no glob metacharacters",
+        "Path.resolve() = lexical folding of '.'/'..' segments; symbolic links only as configured directories (<sandbox>/links/x -> dir, handed to "
+        "the model as the target), none below a searched directory; names are non-empty, without '/' and NUL; the suffix has no glob metacharacters",
         "settings.BASE_DIR is set; the project root / app package parents are on sys.path (dirs: BASE_DIR = import root)",
         "import lookup = importlib.machinery.PathFinder on one root (.py, sourceless .pyc); nothing cached in sys.modules; a file shadowed by a "
         "sibling of the same name (x.py next to package x/, x/ without __init__ next to x.py) has no importing name: not judged",
@@ -762,7 +813,8 @@ def run(tier, seed):
     chk.extra["known_finding_class"] = {"trigger": T_DOT, "oracle_failures_in_class": sum(1 for t, _, _ in chk.failures if t == T_DOT),
                                         "oracle_failures_outside_class": sum(1 for t, _, _ in chk.failures if t != T_DOT)}
     return chk.finish(
-        rule="sandboxes = directory tree x BASE_DIR x COMPONENTS.dirs/STATICFILES_DIRS (str, Path, tuple, list, 3-tuple, duplicates, bad, relative, "
+        rule="sandboxes = directory tree x BASE_DIR x COMPONENTS.dirs/STATICFILES_DIRS (str, Path, tuple, list, 3-tuple, duplicates, bad, relative, 30%% of the "
+             "entries spelled non-canonically: a/x/../b, b/x/.., proj/../proj/b, b/., ./ segment, trailing slash, a symbolic link; "
              "directories with glob metacharacters next to the names a live pattern would match) x app_dirs x 3 installed apps (top-level, nested "
              "package, inside the project); exhaustive small layer (pairs of 6 file names x 4 dir names incl. a directory x.py x 4 sub-trees, "
              "suffixes .py and None) + %d seeded random sandboxes (20%% with dotted names), 2 suffixes each + get_component_dirs(True/False) "
